@@ -18,6 +18,7 @@ struct Case {
   int version = 2, algo = 0, level = 0;
   int prefix_len = 0;
   int index_restart = 16;
+  int zlib_wbits = 0;  // see ref::EFile::zlib_wbits
   std::vector<SEntry> entries;
   std::vector<BlockChoice> blocks;  // partition: consumed in order; leftovers go to a final block
   std::vector<IterSpec> iters;
@@ -44,7 +45,7 @@ struct Case {
       return o.str();
     }
     o << "format version=" << version << " algo=" << algo << " level=" << level << " prefix_len=" << prefix_len << " index_restart=" << index_restart
-      << " qseed=" << qseed << "\n";
+      << " qseed=" << qseed << " zlib_wbits=" << zlib_wbits << "\n";
     for (auto &b : blocks)
       o << "block n=" << b.n << " restart_mode=" << b.restart_mode << " restart_k=" << b.restart_k << " restart_bits=" << b.restart_bits
         << " share_mode=" << b.share_mode << " share_seed=" << b.share_seed << " sep_mode=" << b.sep_mode << "\n";
@@ -70,6 +71,7 @@ struct Case {
           else if (k == "prefix_len") c.prefix_len = (int)v;
           else if (k == "index_restart") c.index_restart = (int)v;
           else if (k == "qseed") c.qseed = (uint32_t)v;
+          else if (k == "zlib_wbits") c.zlib_wbits = (v >= 9 && v <= 15) ? (int)v : 0;
         });
       else if (row[0] == "block") {
         BlockChoice b;
@@ -112,6 +114,7 @@ static ref::EFile build(const Case &c, const KVs &kv) {
   f.version = c.version;
   f.algo = c.algo;
   f.level = c.level;
+  f.zlib_wbits = c.algo == ref::ZLIB ? c.zlib_wbits : 0;
   BStr p;
   p.glen = (uint32_t)c.prefix_len;
   p.gseed = 11;
@@ -274,6 +277,7 @@ static void check_case(const Case &c, Result &r) {
     r.nontrivial = c.version == 1 || nonmax || irregular || widesep;
     r.tag(c.version == 1 ? "format_v1" : "format_v2");
     if (ef.blocks.size() >= 2) r.tag("multi_block");
+    if (ef.zlib_wbits && ef.blocks.size() >= 2) r.tag("zlib_windows_vary_between_blocks");
     if (nonmax) r.tag("non_maximal_sharing");
     if (irregular) r.tag("restarts_not_every_entry");
     if (widesep) r.tag("separator_not_last_key");
